@@ -4,11 +4,14 @@ export GOFLAGS=-mod=mod GOPROXY=off GOSUMDB=off GOTOOLCHAIN=local
 cd "$(dirname "$0")" || exit 2
 cp /repo/go.sum go.sum
 mkdir -p .build/bin evidence
-python3 tools/mkoverlay.py "$PWD" > .build/overlay.setup.json
 rc=0
 for d in checks/c[0-9]*; do
   id=$(basename "$d" | tr a-z A-Z)
-  if [ -x "$d/prebuild.sh" ]; then "$d/prebuild.sh" .build/overlay.setup.json || rc=1; fi
-  go build -tags verif -overlay .build/overlay.setup.json -o ".build/bin/$id" "./$d" || { echo "setup: build of $id failed" >&2; rc=1; }
+  OV=".build/overlay.setup.$id.json"
+  # every check gets its own overlay: prebuild hooks add rewritten copies of repo files to it
+  python3 tools/mkoverlay.py "$PWD" > "$OV"
+  if [ -x "$d/prebuild.sh" ]; then "$d/prebuild.sh" "$OV" || rc=1; fi
+  go build -tags verif -overlay "$OV" -o ".build/bin/$id" "./$d" || { echo "setup: build of $id failed" >&2; rc=1; }
+  rm -f "$OV"
 done
 exit $rc
